@@ -13,6 +13,12 @@ def PhaseOK (c : Cfg) (t : Thr) (s : Scan) : Prop :=
       (∀ x ∈ t.obsC, x = p.2.2) ∧ (∀ d ∈ t.obsD, d = p.2.1)
   | .mixed => True
 
+/-- what the flags of the current outermost section say about the shared state, relative to the triple published
+    last (`dirty` / `bumped` of the scanner state) -/
+def SectOK (c : Cfg) (dirty bumped : Bool) : Prop :=
+  ∃ l, c.hist.getLast? = some l ∧ l.1 ≤ c.ver ∧ (bumped = false → c.ver = l.1) ∧ (bumped = true → l.1 < c.ver) ∧
+    (dirty = false → c.dsc = l.2.1 ∧ c.heap c.cur = l.2.2)
+
 structure ThrInv (c : Cfg) (j : Nat) (s fin : Scan) : Prop where
   scanTodo : scan s (c.thr j).todo = some fin
   scanProg : scan scan0 (c.thr j).prog = some fin
@@ -22,6 +28,7 @@ structure ThrInv (c : Cfg) (j : Nat) (s fin : Scan) : Prop where
   held : 0 < s.d → c.owner 0 = some (j, s.d)
   refLt : ∀ r, (c.thr j).ref = some r → r < c.next
   phase : PhaseOK c (c.thr j) s
+  sect : 0 < s.d → SectOK c s.dirty s.bumped
 
 def ThrOK (c : Cfg) (j : Nat) : Prop := ∃ s fin, ThrInv c j s fin
 
@@ -29,10 +36,17 @@ structure Good (c : Cfg) : Prop where
   curLt : c.cur < c.next
   histNe : c.hist ≠ []
   thr : ∀ j, ThrOK c j
+  quiet : c.owner 0 = none → c.hist.getLast? = some (c.ver, c.dsc, c.heap c.cur)
+  lastMax : ∀ l, c.hist.getLast? = some l → ∀ p ∈ c.hist, p.1 ≤ l.1
 
 theorem good_init {c : Cfg} (h0 : Init c) (hw : ∀ j, WellLocked (c.thr j).prog ∧ NoMutate (c.thr j).prog) : Good c := by
   obtain ⟨hown, hhist, hcur, hthr⟩ := h0
-  refine ⟨hcur, by simp [hhist], fun j => ?_⟩
+  refine ⟨hcur, by simp [hhist], fun j => ?_, fun _ => by simp [hhist], ?_⟩
+  rotate_left
+  · intro l hl p hp
+    simp only [hhist, List.getLast?_singleton, Option.some.injEq] at hl
+    simp only [hhist, List.mem_singleton] at hp
+    subst hl; subst hp; exact Nat.le_refl _
   obtain ⟨hwl, hnm⟩ := hw j
   obtain ⟨htodo, href, hv, hdd, hc⟩ := hthr j
   unfold WellLocked at hwl
@@ -40,23 +54,30 @@ theorem good_init {c : Cfg} (h0 : Init c) (hw : ∀ j, WellLocked (c.thr j).prog
   | none => simp [hsc] at hwl
   | some fin =>
     simp only [hsc] at hwl
-    refine ⟨scan0, fin, ⟨by rw [htodo, hsc], hsc, hwl, by rw [htodo]; exact hnm, ?_, ?_, ?_, ?_⟩⟩
+    refine ⟨scan0, fin, ⟨by rw [htodo, hsc], hsc, hwl, by rw [htodo]; exact hnm, ?_, ?_, ?_, ?_, ?_⟩⟩
     · intro _ n; simp [hown 0]
     · intro h; simp [scan0] at h
     · intro r hr; simp [href] at hr
     · simp [PhaseOK, scan0, href, hv, hc, hdd]
+    · intro h; simp [scan0] at h
 
 /-- a thread that does not move keeps its invariant if the mover left alone what the thread depends on -/
 theorem thrInv_frame {c c' : Cfg} {j : Nat} {s fin : Scan}
     (hthr : c'.thr j = c.thr j)
     (hown : ∀ n, c'.owner 0 = some (j, n) ↔ c.owner 0 = some (j, n))
     (hkeep : ∀ n, c.owner 0 = some (j, n) →
-      c'.ver = c.ver ∧ c'.cur = c.cur ∧ c'.heap c.cur = c.heap c.cur ∧ c'.dsc = c.dsc)
+      c'.ver = c.ver ∧ c'.cur = c.cur ∧ c'.heap c.cur = c.heap c.cur ∧ c'.dsc = c.dsc ∧ c'.hist = c.hist)
     (hhist : ∀ p ∈ c.hist, p ∈ c'.hist)
     (hnext : c.next ≤ c'.next)
     (hheap : ∀ r, r < c.next → c'.heap r = c.heap r)
     (h : ThrInv c j s fin) : ThrInv c' j s fin := by
-  refine ⟨by rw [hthr]; exact h.scanTodo, by rw [hthr]; exact h.scanProg, h.finD, by rw [hthr]; exact h.noMut, ?_, ?_, ?_, ?_⟩
+  refine ⟨by rw [hthr]; exact h.scanTodo, by rw [hthr]; exact h.scanProg, h.finD, by rw [hthr]; exact h.noMut, ?_, ?_, ?_, ?_, ?_⟩
+  rotate_right
+  · intro hd
+    obtain ⟨e1, e2, e3, e4, e5⟩ := hkeep _ (h.held hd)
+    obtain ⟨l, h1, h2, h3, h4, h5⟩ := h.sect hd
+    exact ⟨l, by rw [e5]; exact h1, by rw [e1]; exact h2, by rw [e1]; exact h3, by rw [e1]; exact h4,
+      by rw [e4, e2, e3]; exact h5⟩
   · intro hd n hn; exact h.free hd n ((hown n).1 hn)
   · intro hd; exact (hown _).2 (h.held hd)
   · intro r hr; rw [hthr] at hr; exact Nat.lt_of_lt_of_le (h.refLt r hr) hnext
@@ -68,7 +89,7 @@ theorem thrInv_frame {c c' : Cfg} {j : Nat} {s fin : Scan}
     | during =>
       simp only [hph] at hp ⊢
       obtain ⟨hd, h1, h2, h3, h4⟩ := hp
-      obtain ⟨e1, e2, e3, e4⟩ := hkeep _ (h.held hd)
+      obtain ⟨e1, e2, e3, e4, _⟩ := hkeep _ (h.held hd)
       refine ⟨hd, ?_, ?_, ?_, ?_⟩
       · rw [e1]; exact h1
       · rw [e2]; exact h2
@@ -90,16 +111,68 @@ theorem scan_cons {s fin : Scan} {a : Act} {rest : List Act} (h : scan s (a :: r
   | none => simp [hs] at h
   | some s' => exact ⟨s', rfl, by simpa [hs] using h⟩
 
+/-! ### what one scanner step does (field by field) -/
+
+theorem stepScan_other {s s' : Scan} {a : Act} {l : Nat} (hl : l ≠ 0) (ha : a = .acq l ∨ a = .rel l)
+    (h : stepScan s a = some s') : s' = s := by
+  rcases ha with rfl | rfl <;> simp [stepScan, hl] at h <;> exact h.symm
+
+theorem stepScan_acq0 {s s' : Scan} (h : stepScan s (.acq 0) = some s') :
+    s'.d = s.d + 1 ∧ s'.ph = s.ph ∧ s'.ok = s.ok ∧
+    (0 < s.d → s'.dirty = s.dirty ∧ s'.bumped = s.bumped) ∧ (s.d = 0 → s'.dirty = false ∧ s'.bumped = false) := by
+  simp only [stepScan, if_true] at h
+  by_cases hd : s.d = 0
+  · simp only [hd, if_true, Option.some.injEq] at h
+    subst h; simp [hd]
+  · simp only [hd, if_false, Option.some.injEq] at h
+    subst h; simp [hd]
+
+theorem stepScan_rel0 {s s' : Scan} (h : stepScan s (.rel 0) = some s') :
+    0 < s.d ∧ s'.d = s.d - 1 ∧ s'.ph = (if s.d = 1 ∧ s.ph = .during then .after else s.ph) ∧
+    s'.dirty = s.dirty ∧ s'.bumped = s.bumped ∧
+    s'.ok = (if s.d = 1 then s.ok && (!s.dirty || s.bumped) else s.ok) := by
+  simp only [stepScan, if_true] at h
+  by_cases hd : s.d = 0
+  · simp [hd] at h
+  · simp only [hd, if_false, Option.some.injEq] at h
+    subst h
+    exact ⟨Nat.pos_of_ne_zero hd, rfl, rfl, rfl, rfl, rfl⟩
+
+theorem stepScan_read {s s' : Scan} {a : Act} (ha : a = .rdV ∨ a = .rdC ∨ a = .rdD) (h : stepScan s a = some s') :
+    0 < s.d ∧ s'.d = s.d ∧ s'.dirty = s.dirty ∧ s'.bumped = s.bumped ∧ s'.ok = s.ok ∧
+      ((s.ph = .before ∨ s.ph = .during) ∧ s'.ph = .during ∨ s.ph = .mixed ∧ s'.ph = .mixed) := by
+  have hd : s.d ≠ 0 := by
+    intro hd
+    rcases ha with rfl | rfl | rfl <;> simp [stepScan, hd] at h
+  refine ⟨Nat.pos_of_ne_zero hd, ?_⟩
+  rcases ha with rfl | rfl | rfl <;> simp only [stepScan, hd, if_false] at h <;>
+    (cases hph : s.ph <;> simp only [hph] at h <;> cases h <;> simp [hph])
+
+theorem stepScan_deref {s s' : Scan} (h : stepScan s .deref = some s') : s' = s := by
+  simp [stepScan] at h; exact h.symm
+
+theorem stepScan_write {s s' : Scan} {a : Act} (ha : a.isWrite = true) (h : stepScan s a = some s') :
+    0 < s.d ∧ s'.d = s.d ∧ s'.ph = (if s.ph = .during then .mixed else s.ph) ∧ s'.ok = s.ok ∧
+    (a = .incV → s'.bumped = true ∧ s'.dirty = s.dirty) ∧ (a ≠ .incV → s'.dirty = true ∧ s'.bumped = s.bumped) := by
+  have hd : s.d ≠ 0 := by
+    intro hd
+    cases a <;> simp [Act.isWrite] at ha <;> simp [stepScan, hd] at h
+  refine ⟨Nat.pos_of_ne_zero hd, ?_⟩
+  cases a <;> simp [Act.isWrite] at ha <;> simp only [stepScan, hd, if_false, Option.some.injEq] at h <;>
+    (subst h; simp)
+
 /-- assembling `Good c'` after thread `i` moved -/
 theorem good_of {c c' : Cfg} {i : Nat} (hg : Good c)
     (hcur : c'.cur < c'.next) (hi : ThrOK c' i)
     (hoth : ∀ j, j ≠ i → c'.thr j = c.thr j)
     (hown : ∀ j, j ≠ i → ∀ n, c'.owner 0 = some (j, n) ↔ c.owner 0 = some (j, n))
     (hkeep : ∀ j, j ≠ i → ∀ n, c.owner 0 = some (j, n) →
-      c'.ver = c.ver ∧ c'.cur = c.cur ∧ c'.heap c.cur = c.heap c.cur ∧ c'.dsc = c.dsc)
+      c'.ver = c.ver ∧ c'.cur = c.cur ∧ c'.heap c.cur = c.heap c.cur ∧ c'.dsc = c.dsc ∧ c'.hist = c.hist)
     (hhist : ∀ p ∈ c.hist, p ∈ c'.hist) (hnext : c.next ≤ c'.next)
-    (hheap : ∀ r, r < c.next → c'.heap r = c.heap r) : Good c' := by
-  refine ⟨hcur, ?_, fun j => ?_⟩
+    (hheap : ∀ r, r < c.next → c'.heap r = c.heap r)
+    (hquiet : c'.owner 0 = none → c'.hist.getLast? = some (c'.ver, c'.dsc, c'.heap c'.cur))
+    (hlast : ∀ l, c'.hist.getLast? = some l → ∀ p ∈ c'.hist, p.1 ≤ l.1) : Good c' := by
+  refine ⟨hcur, ?_, fun j => ?_, hquiet, hlast⟩
   · intro he
     cases hh : c.hist with
     | nil => exact hg.histNe hh
@@ -118,23 +191,35 @@ theorem thrInv_mover {c c' : Cfg} {i : Nat} {s s' fin : Scan} {a : Act} {rest : 
     (free : s'.d = 0 → ∀ n, c'.owner 0 ≠ some (i, n))
     (held : 0 < s'.d → c'.owner 0 = some (i, s'.d))
     (refLt : ∀ r, (c'.thr i).ref = some r → r < c'.next)
-    (phase : PhaseOK c' (c'.thr i) s') : ThrInv c' i s' fin := by
-  refine ⟨by rw [htodo']; exact hrest, by rw [hprog]; exact h.scanProg, h.finD, ?_, free, held, refLt, phase⟩
+    (phase : PhaseOK c' (c'.thr i) s')
+    (sect : 0 < s'.d → SectOK c' s'.dirty s'.bumped) : ThrInv c' i s' fin := by
+  refine ⟨by rw [htodo']; exact hrest, by rw [hprog]; exact h.scanProg, h.finD, ?_, free, held, refLt, phase, sect⟩
   rw [htodo']
   intro b hb
   exact h.noMut b (by rw [htodo]; exact List.mem_cons_of_mem _ hb)
 
-/-! ### thread-local actions: `rdV`, `rdC`, `deref` -/
+/-- a step that leaves lock 0 and the shared MDIB state alone (thread-local actions, other locks) -/
+theorem good_local {c : Cfg} {i : Nat} {s s' fin : Scan} {a : Act} {rest : List Act} (t' : Thr) (owner' : Nat → Option (Nat × Nat))
+    (hg : Good c) (h : ThrInv c i s fin) (htodo : (c.thr i).todo = a :: rest) (hrest : scan s' rest = some fin)
+    (hown0 : owner' 0 = c.owner 0) (hprog : t'.prog = (c.thr i).prog) (htodo' : t'.todo = rest)
+    (hd : s'.d = s.d) (hflags : s'.dirty = s.dirty ∧ s'.bumped = s.bumped)
+    (refLt : ∀ r, t'.ref = some r → r < c.next)
+    (phase : PhaseOK { c with owner := owner', thr := upd c.thr i t' } t' s') :
+    Good { c with owner := owner', thr := upd c.thr i t' } := by
+  refine good_of (i := i) hg hg.curLt ⟨s', fin, thrInv_mover h htodo hrest (by simpa using hprog) (by simpa using htodo')
+      ?_ ?_ ?_ ?_ ?_⟩
+    (fun j hj => by simp [hj]) (fun j hj n => by simp only [hown0]) (fun j hj n _ => ⟨rfl, rfl, rfl, rfl, rfl⟩)
+    (fun p hp => hp) (Nat.le_refl _) (fun r _ => rfl) ?_ hg.lastMax
+  · intro h0 n; simp only [hown0]; exact h.free (hd ▸ h0) n
+  · intro h0; simp only [hown0, hd]; exact h.held (hd ▸ h0)
+  · intro r hr; simp only [upd_same] at hr; exact refLt r hr
+  · simpa using phase
+  · intro h0
+    rw [hflags.1, hflags.2]
+    exact h.sect (hd ▸ h0)
+  · intro ho; simp only [hown0] at ho; exact hg.quiet ho
 
-theorem stepScan_read {s s' : Scan} {a : Act} (ha : a = .rdV ∨ a = .rdC ∨ a = .rdD) (h : stepScan s a = some s') :
-    0 < s.d ∧ s'.d = s.d ∧
-      ((s.ph = .before ∨ s.ph = .during) ∧ s'.ph = .during ∨ s.ph = .mixed ∧ s'.ph = .mixed) := by
-  have hd : s.d ≠ 0 := by
-    intro hd
-    rcases ha with rfl | rfl | rfl <;> simp [stepScan, hd] at h
-  refine ⟨Nat.pos_of_ne_zero hd, ?_⟩
-  rcases ha with rfl | rfl | rfl <;> simp only [stepScan, hd, if_false] at h <;>
-    (cases hph : s.ph <;> simp only [hph] at h <;> cases h <;> simp [hph])
+/-! ### thread-local actions: `rdV`, `rdC`, `rdD`, `deref` -/
 
 theorem good_rdV {c c' : Cfg} {i : Nat} {s fin : Scan} {rest : List Act} (hg : Good c) (h : ThrInv c i s fin)
     (htodo : (c.thr i).todo = .rdV :: rest) (hs : stepAct c i .rdV rest = some c') : Good c' := by
@@ -143,28 +228,22 @@ theorem good_rdV {c c' : Cfg} {i : Nat} {s fin : Scan} {rest : List Act} (hg : G
   have hsc := h.scanTodo
   simp only [htodo] at hsc
   obtain ⟨s', hss, hrest⟩ := scan_cons hsc
-  obtain ⟨hd, hd', hph⟩ := stepScan_read (Or.inl rfl) hss
-  refine good_of (i := i) hg hg.curLt ⟨s', fin, thrInv_mover h htodo hrest (by simp) (by simp) ?_ ?_ ?_ ?_⟩
-    (fun j hj => by simp [hj]) (fun j hj n => Iff.rfl) (fun j hj n _ => ⟨rfl, rfl, rfl, rfl⟩) (fun p hp => hp)
-    (Nat.le_refl _) (fun r _ => rfl)
-  · intro h0; omega
-  · intro _; rw [hd']; exact h.held hd
-  · intro r hr; simp only [upd_same] at hr; exact h.refLt r hr
-  · have hp := h.phase
-    unfold PhaseOK at hp ⊢
-    simp only [upd_same]
-    rcases hph with ⟨hb | hb, hn⟩ | ⟨hb, hn⟩
-    · simp only [hb] at hp
-      simp only [hn, hp.2.1, hp.1, hp.2.2.1, hp.2.2.2]
-      refine ⟨by omega, by simp, by simp, by simp, by simp⟩
-    · simp only [hb] at hp
-      simp only [hn]
-      refine ⟨by omega, ?_, hp.2.2.1, hp.2.2.2⟩
-      intro v hv
-      rcases List.mem_append.1 hv with hv | hv
-      · exact hp.2.1 v hv
-      · simpa using hv
-    · simp [hn]
+  obtain ⟨hd, hd', hf1, hf2, _, hph⟩ := stepScan_read (Or.inl rfl) hss
+  refine good_local _ c.owner hg h htodo hrest rfl rfl rfl hd' ⟨hf1, hf2⟩ h.refLt ?_
+  have hp := h.phase
+  unfold PhaseOK at hp ⊢
+  rcases hph with ⟨hb | hb, hn⟩ | ⟨hb, hn⟩
+  · simp only [hb] at hp
+    simp only [hn, hp.2.1, hp.1, hp.2.2.1, hp.2.2.2]
+    refine ⟨by omega, by simp, by simp, by simp, by simp⟩
+  · simp only [hb] at hp
+    simp only [hn]
+    refine ⟨by omega, ?_, hp.2.2.1, hp.2.2.2⟩
+    intro v hv
+    rcases List.mem_append.1 hv with hv | hv
+    · exact hp.2.1 v hv
+    · simpa using hv
+  · simp [hn]
 
 theorem good_rdD {c c' : Cfg} {i : Nat} {s fin : Scan} {rest : List Act} (hg : Good c) (h : ThrInv c i s fin)
     (htodo : (c.thr i).todo = .rdD :: rest) (hs : stepAct c i .rdD rest = some c') : Good c' := by
@@ -173,28 +252,22 @@ theorem good_rdD {c c' : Cfg} {i : Nat} {s fin : Scan} {rest : List Act} (hg : G
   have hsc := h.scanTodo
   simp only [htodo] at hsc
   obtain ⟨s', hss, hrest⟩ := scan_cons hsc
-  obtain ⟨hd, hd', hph⟩ := stepScan_read (Or.inr (Or.inr rfl)) hss
-  refine good_of (i := i) hg hg.curLt ⟨s', fin, thrInv_mover h htodo hrest (by simp) (by simp) ?_ ?_ ?_ ?_⟩
-    (fun j hj => by simp [hj]) (fun j hj n => Iff.rfl) (fun j hj n _ => ⟨rfl, rfl, rfl, rfl⟩) (fun p hp => hp)
-    (Nat.le_refl _) (fun r _ => rfl)
-  · intro h0; omega
-  · intro _; rw [hd']; exact h.held hd
-  · intro r hr; simp only [upd_same] at hr; exact h.refLt r hr
-  · have hp := h.phase
-    unfold PhaseOK at hp ⊢
-    simp only [upd_same]
-    rcases hph with ⟨hb | hb, hn⟩ | ⟨hb, hn⟩
-    · simp only [hb] at hp
-      simp only [hn, hp.2.1, hp.1, hp.2.2.1, hp.2.2.2]
-      refine ⟨by omega, by simp, by simp, by simp, by simp⟩
-    · simp only [hb] at hp
-      simp only [hn]
-      refine ⟨by omega, hp.2.1, hp.2.2.1, hp.2.2.2.1, ?_⟩
-      intro v hv
-      rcases List.mem_append.1 hv with hv | hv
-      · exact hp.2.2.2.2 v hv
-      · simpa using hv
-    · simp [hn]
+  obtain ⟨hd, hd', hf1, hf2, _, hph⟩ := stepScan_read (Or.inr (Or.inr rfl)) hss
+  refine good_local _ c.owner hg h htodo hrest rfl rfl rfl hd' ⟨hf1, hf2⟩ h.refLt ?_
+  have hp := h.phase
+  unfold PhaseOK at hp ⊢
+  rcases hph with ⟨hb | hb, hn⟩ | ⟨hb, hn⟩
+  · simp only [hb] at hp
+    simp only [hn, hp.2.1, hp.1, hp.2.2.1, hp.2.2.2]
+    refine ⟨by omega, by simp, by simp, by simp, by simp⟩
+  · simp only [hb] at hp
+    simp only [hn]
+    refine ⟨by omega, hp.2.1, hp.2.2.1, hp.2.2.2.1, ?_⟩
+    intro v hv
+    rcases List.mem_append.1 hv with hv | hv
+    · exact hp.2.2.2.2 v hv
+    · simpa using hv
+  · simp [hn]
 
 theorem good_rdC {c c' : Cfg} {i : Nat} {s fin : Scan} {rest : List Act} (hg : Good c) (h : ThrInv c i s fin)
     (htodo : (c.thr i).todo = .rdC :: rest) (hs : stepAct c i .rdC rest = some c') : Good c' := by
@@ -203,27 +276,22 @@ theorem good_rdC {c c' : Cfg} {i : Nat} {s fin : Scan} {rest : List Act} (hg : G
   have hsc := h.scanTodo
   simp only [htodo] at hsc
   obtain ⟨s', hss, hrest⟩ := scan_cons hsc
-  obtain ⟨hd, hd', hph⟩ := stepScan_read (Or.inr (Or.inl rfl)) hss
-  refine good_of (i := i) hg hg.curLt ⟨s', fin, thrInv_mover h htodo hrest (by simp) (by simp) ?_ ?_ ?_ ?_⟩
-    (fun j hj => by simp [hj]) (fun j hj n => Iff.rfl) (fun j hj n _ => ⟨rfl, rfl, rfl, rfl⟩) (fun p hp => hp)
-    (Nat.le_refl _) (fun r _ => rfl)
-  · intro h0; omega
-  · intro _; rw [hd']; exact h.held hd
+  obtain ⟨hd, hd', hf1, hf2, _, hph⟩ := stepScan_read (Or.inr (Or.inl rfl)) hss
+  refine good_local _ c.owner hg h htodo hrest rfl rfl rfl hd' ⟨hf1, hf2⟩ ?_ ?_
   · intro r hr
-    simp only [upd_same, Option.some.injEq] at hr
+    simp only [Option.some.injEq] at hr
     subst hr; exact hg.curLt
-  · have hp := h.phase
-    unfold PhaseOK at hp ⊢
-    simp only [upd_same]
-    rcases hph with ⟨hb | hb, hn⟩ | ⟨hb, hn⟩
-    · simp only [hb] at hp
-      simp only [hn, hp.2.1, hp.2.2.1, hp.2.2.2]
-      refine ⟨by omega, by simp, by simp, by simp, by simp⟩
-    · simp only [hb] at hp
-      simp only [hn]
-      refine ⟨by omega, hp.2.1, ?_, hp.2.2.2⟩
-      intro r hr; simpa using hr.symm
-    · simp [hn]
+  have hp := h.phase
+  unfold PhaseOK at hp ⊢
+  rcases hph with ⟨hb | hb, hn⟩ | ⟨hb, hn⟩
+  · simp only [hb] at hp
+    simp only [hn, hp.2.1, hp.2.2.1, hp.2.2.2]
+    refine ⟨by omega, by simp, by simp, by simp, by simp⟩
+  · simp only [hb] at hp
+    simp only [hn]
+    refine ⟨by omega, hp.2.1, ?_, hp.2.2.2⟩
+    intro r hr; simpa using hr.symm
+  · simp [hn]
 
 theorem good_deref {c c' : Cfg} {i : Nat} {s fin : Scan} {rest : List Act} (hg : Good c) (h : ThrInv c i s fin)
     (htodo : (c.thr i).todo = .deref :: rest) (hs : stepAct c i .deref rest = some c') : Good c' := by
@@ -236,15 +304,13 @@ theorem good_deref {c c' : Cfg} {i : Nat} {s fin : Scan} {rest : List Act} (hg :
     have hsc := h.scanTodo
     simp only [htodo] at hsc
     obtain ⟨s', hss, hrest⟩ := scan_cons hsc
-    have hs' : s' = s := by simp [stepScan] at hss; exact hss.symm
+    have hs' : s' = s := stepScan_deref hss
     subst hs'
-    refine good_of (i := i) hg hg.curLt ⟨s', fin, thrInv_mover h htodo hrest (by simp) (by simp) h.free h.held ?_ ?_⟩
-      (fun j hj => by simp [hj]) (fun j hj n => Iff.rfl) (fun j hj n _ => ⟨rfl, rfl, rfl, rfl⟩) (fun p hp => hp)
-      (Nat.le_refl _) (fun r _ => rfl)
-    · intro r' hr'; simp only [upd_same] at hr'; rw [← href] at hr'; exact h.refLt r' hr'
+    refine good_local _ c.owner hg h htodo hrest rfl rfl rfl rfl ⟨rfl, rfl⟩ ?_ ?_
+    · intro r' hr'; simp only at hr'; rw [← href] at hr'; exact h.refLt r' hr'
     · have hp := h.phase
       unfold PhaseOK at hp ⊢
-      simp only [upd_same]
+      simp only
       rw [← href]
       cases hph : s'.ph with
       | before => simp [hph, href] at hp
@@ -276,15 +342,10 @@ theorem good_otherLock {c : Cfg} {i l : Nat} {s fin : Scan} {a : Act} {rest : Li
     (htodo : (c.thr i).todo = a :: rest) (hrest : scan s rest = some fin) :
     Good { c with owner := upd c.owner l v, thr := upd c.thr i { c.thr i with todo := rest } } := by
   have h0 : (0 : Nat) ≠ l := fun e => hl e.symm
-  refine good_of (i := i) hg hg.curLt ⟨s, fin, thrInv_mover h htodo hrest (by simp) (by simp) ?_ ?_ ?_ ?_⟩
-    (fun j hj => by simp [hj]) (fun j hj n => by simp [upd_other _ _ _ _ h0]) (fun j hj n _ => ⟨rfl, rfl, rfl, rfl⟩)
-    (fun p hp => hp) (Nat.le_refl _) (fun r _ => rfl)
-  · intro hd n; simp only [upd_other _ _ _ _ h0]; exact h.free hd n
-  · intro hd; simp only [upd_other _ _ _ _ h0]; exact h.held hd
-  · intro r hr; simp only [upd_same] at hr; exact h.refLt r hr
-  · have hp := h.phase
-    unfold PhaseOK at hp ⊢
-    simpa using hp
+  refine good_local _ _ hg h htodo hrest (upd_other _ _ _ _ h0) rfl rfl rfl ⟨rfl, rfl⟩ h.refLt ?_
+  have hp := h.phase
+  unfold PhaseOK at hp ⊢
+  simpa using hp
 
 theorem good_acq {c c' : Cfg} {i l : Nat} {s fin : Scan} {rest : List Act} (hg : Good c) (h : ThrInv c i s fin)
     (htodo : (c.thr i).todo = .acq l :: rest) (hs : stepAct c i (.acq l) rest = some c') : Good c' := by
@@ -293,11 +354,11 @@ theorem good_acq {c c' : Cfg} {i l : Nat} {s fin : Scan} {rest : List Act} (hg :
   obtain ⟨s', hss, hrest⟩ := scan_cons hsc
   by_cases hl : l = 0
   · subst hl
-    have hs' : s' = { s with d := s.d + 1 } := by simp [stepScan] at hss; exact hss.symm
-    subst hs'
+    obtain ⟨hd', hph', _, hfl, hfl0⟩ := stepScan_acq0 hss
     -- the new owner entry is (i, s.d + 1) in both branches
     have hc' : c' = { c with owner := upd c.owner 0 (some (i, s.d + 1)),
-                             thr := upd c.thr i { c.thr i with todo := rest } } := by
+                             thr := upd c.thr i { c.thr i with todo := rest } } ∧
+               (s.d = 0 → c.owner 0 = none) := by
       simp only [stepAct] at hs
       cases ho : c.owner 0 with
       | none =>
@@ -321,38 +382,44 @@ theorem good_acq {c c' : Cfg} {i l : Nat} {s fin : Scan} {rest : List Act} (hg :
             · exact h0
           have := h.held hpos; rw [ho] at this
           injection this with this; injection this with _ hn
-          simp [hn]
+          refine ⟨by simp [hn], fun h0 => by omega⟩
         · simp [hj] at hs
-    subst hc'
+    obtain ⟨hc', hnone⟩ := hc'
     have hnoti : ∀ j, j ≠ i → ∀ n, c.owner 0 ≠ some (j, n) := by
       intro j hj n ho
       rcases Nat.eq_zero_or_pos s.d with h0 | h0
-      · -- the step was enabled, so the lock was free or ours
-        simp only [stepAct, ho] at hs
-        have : j ≠ i := hj
-        simp [this] at hs
+      · rw [hnone h0] at ho; cases ho
       · have := h.held h0; rw [ho] at this
         injection this with this; injection this with hji _
         exact hj hji
-    refine good_of (i := i) hg hg.curLt ⟨_, fin, thrInv_mover h htodo hrest (by simp) (by simp) ?_ ?_ ?_ ?_⟩
-      (fun j hj => by simp [hj]) ?_ (fun j hj n _ => ⟨rfl, rfl, rfl, rfl⟩)
-      (fun p hp => hp) (Nat.le_refl _) (fun r _ => rfl)
-    · intro hd; simp at hd
-    · intro _; simp
+    subst hc'
+    refine good_of (i := i) hg hg.curLt ⟨s', fin, thrInv_mover h htodo hrest (by simp) (by simp) ?_ ?_ ?_ ?_ ?_⟩
+      (fun j hj => by simp [hj]) ?_ (fun j hj n _ => ⟨rfl, rfl, rfl, rfl, rfl⟩)
+      (fun p hp => hp) (Nat.le_refl _) (fun r _ => rfl) ?_ hg.lastMax
+    · intro hd; omega
+    · intro _; simp [hd']
     · intro r hr; simp only [upd_same] at hr; exact h.refLt r hr
     · have hp := h.phase
       unfold PhaseOK at hp ⊢
-      simp only [upd_same]
+      simp only [upd_same, hph']
       cases hph : s.ph <;> simp only [hph] at hp ⊢
       · exact hp
       · exact ⟨by omega, hp.2⟩
       · exact hp
+    · intro _
+      rcases Nat.eq_zero_or_pos s.d with h0 | h0
+      · -- a new outermost section: the state is the one published last
+        rw [(hfl0 h0).1, (hfl0 h0).2]
+        refine ⟨_, hg.quiet (hnone h0), Nat.le_refl _, fun _ => rfl, (fun hb => by cases hb), fun _ => ⟨rfl, rfl⟩⟩
+      · rw [(hfl h0).1, (hfl h0).2]
+        exact h.sect h0
     · intro j hj n
       simp only [upd_same]
       constructor
       · intro e; injection e with e; injection e with e _; exact absurd e.symm hj
       · intro e; exact absurd e (hnoti j hj n)
-  · have hs' : s' = s := by simp [stepScan, hl] at hss; exact hss.symm
+    · intro ho; simp at ho
+  · have hs' : s' = s := stepScan_other hl (Or.inl rfl) hss
     subst hs'
     simp only [stepAct] at hs
     cases ho : c.owner l with
@@ -377,30 +444,27 @@ theorem good_rel {c c' : Cfg} {i l : Nat} {s fin : Scan} {rest : List Act} (hg :
   obtain ⟨s', hss, hrest⟩ := scan_cons hsc
   by_cases hl : l = 0
   · subst hl
-    have hd : s.d ≠ 0 := by intro hd; simp [stepScan, hd] at hss
-    have hpos : 0 < s.d := Nat.pos_of_ne_zero hd
-    have hs' : s' = { d := s.d - 1, ph := if s.d = 1 ∧ s.ph = .during then .after else s.ph } := by
-      simp [stepScan, hd] at hss; exact hss.symm
+    obtain ⟨hpos, hd', hph', hfd, hfb, _⟩ := stepScan_rel0 hss
     have ho := h.held hpos
     simp only [stepAct, ho, if_true] at hs
     have hnoti : ∀ j, j ≠ i → ∀ n, c.owner 0 ≠ some (j, n) := by
       intro j hj n e; rw [ho] at e
       injection e with e; injection e with e _; exact hj e.symm
     by_cases h1 : s.d ≤ 1
-    · -- outermost release: the current pair is published
+    · -- outermost release: the current triple is published
       have hd1 : s.d = 1 := by omega
       simp only [h1, if_true] at hs
       injection hs with hs; subst hs
-      subst hs'
-      refine good_of (i := i) hg hg.curLt ⟨_, fin, thrInv_mover h htodo hrest (by simp) (by simp) ?_ ?_ ?_ ?_⟩
+      obtain ⟨l0, hl0, hle, _, _, _⟩ := h.sect hpos
+      refine good_of (i := i) hg hg.curLt ⟨s', fin, thrInv_mover h htodo hrest (by simp) (by simp) ?_ ?_ ?_ ?_ ?_⟩
         (fun j hj => by simp [hj]) ?_ (fun j hj n e => absurd e (hnoti j hj n))
-        (fun p hp => by simp [hp]) (Nat.le_refl _) (fun r _ => rfl)
+        (fun p hp => by simp [hp]) (Nat.le_refl _) (fun r _ => rfl) ?_ ?_
       · intro _ n; simp
-      · intro hp; simp only [hd1] at hp; omega
+      · intro hp; omega
       · intro r hr; simp only [upd_same] at hr; exact h.refLt r hr
       · have hp := h.phase
         unfold PhaseOK at hp ⊢
-        simp only [upd_same, hd1, true_and]
+        simp only [upd_same, hph', hd1, true_and]
         cases hph : s.ph <;> simp only [hph] at hp ⊢
         · exact hp
         · refine ⟨(c.ver, c.dsc, c.heap c.cur), by simp, hp.2.1, ?_, hp.2.2.2⟩
@@ -408,36 +472,48 @@ theorem good_rel {c c' : Cfg} {i l : Nat} {s fin : Scan} {rest : List Act} (hg :
         · obtain ⟨p, hpm, hrest'⟩ := hp
           exact ⟨p, by simp [hpm], hrest'⟩
         · simp
+      · intro hp; omega
       · intro j hj n
         simp only [upd_same]
         constructor
         · intro e; cases e
         · intro e; exact absurd e (hnoti j hj n)
+      · intro _; simp
+      · intro l hl p hp
+        simp only [List.getLast?_append, List.getLast?_singleton, Option.some_or, Option.some.injEq] at hl
+        subst hl
+        simp only [List.mem_append, List.mem_singleton] at hp
+        rcases hp with hp | rfl
+        · exact Nat.le_trans (hg.lastMax l0 hl0 p hp) hle
+        · exact Nat.le_refl _
     · -- inner release of the re-entrant lock
       simp only [h1, if_false] at hs
       injection hs with hs; subst hs
       have hne : ¬(s.d = 1 ∧ s.ph = .during) := fun e => h1 (by omega)
-      simp only [hne, if_false] at hs'
-      subst hs'
-      refine good_of (i := i) hg hg.curLt ⟨_, fin, thrInv_mover h htodo hrest (by simp) (by simp) ?_ ?_ ?_ ?_⟩
+      simp only [hne, if_false] at hph'
+      refine good_of (i := i) hg hg.curLt ⟨s', fin, thrInv_mover h htodo hrest (by simp) (by simp) ?_ ?_ ?_ ?_ ?_⟩
         (fun j hj => by simp [hj]) ?_ (fun j hj n e => absurd e (hnoti j hj n))
-        (fun p hp => hp) (Nat.le_refl _) (fun r _ => rfl)
-      · intro hd0; simp only at hd0; omega
-      · intro _; simp
+        (fun p hp => hp) (Nat.le_refl _) (fun r _ => rfl) ?_ hg.lastMax
+      · intro hd0; omega
+      · intro _; simp [hd']
       · intro r hr; simp only [upd_same] at hr; exact h.refLt r hr
       · have hp := h.phase
         unfold PhaseOK at hp ⊢
-        simp only [upd_same]
+        simp only [upd_same, hph']
         cases hph : s.ph <;> simp only [hph] at hp ⊢
         · exact hp
         · exact ⟨by omega, hp.2⟩
         · exact hp
+      · intro _
+        rw [hfd, hfb]
+        exact h.sect hpos
       · intro j hj n
         simp only [upd_same]
         constructor
         · intro e; injection e with e; injection e with e _; exact absurd e.symm hj
         · intro e; exact absurd e (hnoti j hj n)
-  · have hs' : s' = s := by simp [stepScan, hl] at hss; exact hss.symm
+      · intro ho; simp at ho
+  · have hs' : s' = s := stepScan_other hl (Or.inr rfl) hss
     subst hs'
     simp only [stepAct] at hs
     cases ho : c.owner l with
@@ -459,40 +535,33 @@ theorem good_rel {c c' : Cfg} {i l : Nat} {s fin : Scan} {rest : List Act} (hg :
 
 /-! ### shared writes by the lock owner -/
 
-theorem stepScan_write {s s' : Scan} {a : Act} (ha : a.isWrite = true) (h : stepScan s a = some s') :
-    0 < s.d ∧ s' = { s with ph := if s.ph = .during then .mixed else s.ph } := by
-  have hd : s.d ≠ 0 := by
-    intro hd
-    cases a <;> simp [Act.isWrite] at ha <;> simp [stepScan, hd] at h
-  refine ⟨Nat.pos_of_ne_zero hd, ?_⟩
-  cases a <;> simp [Act.isWrite] at ha <;> simp [stepScan, hd] at h <;> exact h.symm
-
-/-- common part of `incV` and `wrC`: the owner changes version / installs a fresh object -/
+/-- common part of the writes: the owner changes version / description / installs a fresh state object -/
 theorem good_write {c : Cfg} {i : Nat} {s fin : Scan} {a : Act} {rest : List Act}
     (ver' dsc' cur' next' : Nat) (heap' : Nat → Nat)
     (hg : Good c) (h : ThrInv c i s fin) (ha : a.isWrite = true)
     (htodo : (c.thr i).todo = a :: rest)
-    (hcur : cur' < next') (hnext : c.next ≤ next') (hheap : ∀ r, r < c.next → heap' r = c.heap r) :
+    (hcur : cur' < next') (hnext : c.next ≤ next') (hheap : ∀ r, r < c.next → heap' r = c.heap r)
+    (_hver : c.ver ≤ ver') (hinc : a = .incV → ver' = c.ver + 1 ∧ dsc' = c.dsc ∧ heap' cur' = c.heap c.cur)
+    (hoth : a ≠ .incV → ver' = c.ver) :
     Good { c with ver := ver', dsc := dsc', cur := cur', heap := heap', next := next',
                   thr := upd c.thr i { c.thr i with todo := rest } } := by
   have hsc := h.scanTodo
   simp only [htodo] at hsc
   obtain ⟨s', hss, hrest⟩ := scan_cons hsc
-  obtain ⟨hpos, hs'⟩ := stepScan_write ha hss
-  subst hs'
+  obtain ⟨hpos, hd', hph', _, hfi, hfo⟩ := stepScan_write ha hss
   have ho := h.held hpos
   have hnoti : ∀ j, j ≠ i → ∀ n, c.owner 0 ≠ some (j, n) := by
     intro j hj n e; rw [ho] at e
     injection e with e; injection e with e _; exact hj e.symm
-  refine good_of (i := i) hg hcur ⟨_, fin, thrInv_mover h htodo hrest (by simp) (by simp) ?_ ?_ ?_ ?_⟩
+  refine good_of (i := i) hg hcur ⟨s', fin, thrInv_mover h htodo hrest (by simp) (by simp) ?_ ?_ ?_ ?_ ?_⟩
     (fun j hj => by simp [hj]) (fun j hj n => Iff.rfl) (fun j hj n e => absurd e (hnoti j hj n))
-    (fun p hp => hp) hnext hheap
-  · intro hd n; exact h.free hd n
-  · intro hd; exact h.held hd
+    (fun p hp => hp) hnext hheap ?_ hg.lastMax
+  · intro hd n; exact h.free (hd' ▸ hd) n
+  · intro hd; rw [hd']; exact h.held (hd' ▸ hd)
   · intro r hr; simp only [upd_same] at hr; exact Nat.lt_of_lt_of_le (h.refLt r hr) hnext
   · have hp := h.phase
     unfold PhaseOK at hp ⊢
-    simp only [upd_same]
+    simp only [upd_same, hph']
     cases hph : s.ph <;> simp only [hph] at hp ⊢
     · exact hp
     · simp
@@ -500,6 +569,58 @@ theorem good_write {c : Cfg} {i : Nat} {s fin : Scan} {a : Act} {rest : List Act
       refine ⟨p, hpm, h1, ?_, h3⟩
       intro r hr; rw [hheap r (h.refLt r hr)]; exact h2 r hr
     · simp
+  · intro _
+    obtain ⟨l, hl, hle, hb0, hb1, hdd⟩ := h.sect hpos
+    by_cases hai : a = .incV
+    · obtain ⟨hv, hd2, hh2⟩ := hinc hai
+      rw [(hfi hai).1, (hfi hai).2]
+      refine ⟨l, hl, (by simp only; omega), (fun hb => by cases hb), (fun _ => by simp only; omega), ?_⟩
+      intro hdf
+      simp only [hd2, hh2]
+      exact hdd hdf
+    · have hv := hoth hai
+      rw [(hfo hai).1, (hfo hai).2]
+      refine ⟨l, hl, (by simp only; omega), ?_, ?_, (fun hb => by cases hb)⟩
+      · intro hb; simp only [hv]; exact hb0 hb
+      · intro hb; simp only [hv]; exact hb1 hb
+  · intro hnone; simp only [ho] at hnone; cases hnone
+
+/-- thread programs never change -/
+theorem stepFn_prog {c c' : Cfg} {i : Nat} (hs : stepFn c i = some c') (j : Nat) : (c'.thr j).prog = (c.thr j).prog := by
+  unfold stepFn at hs
+  cases htodo : (c.thr i).todo with
+  | nil => simp [htodo] at hs
+  | cons a rest =>
+    simp only [htodo] at hs
+    have key : ∀ t' : Thr, t'.prog = (c.thr i).prog → (upd c.thr i t' j).prog = (c.thr j).prog := by
+      intro t' ht
+      by_cases hj : j = i
+      · subst hj; simpa using ht
+      · simp [hj]
+    cases a <;> simp only [stepAct] at hs
+    case acq l =>
+      cases ho : c.owner l with
+      | none => simp only [ho] at hs; injection hs with hs; subst hs; exact key _ rfl
+      | some jn =>
+        obtain ⟨k, n⟩ := jn
+        simp only [ho] at hs
+        split at hs
+        · injection hs with hs; subst hs; exact key _ rfl
+        · cases hs
+    case rel l =>
+      cases ho : c.owner l with
+      | none => simp [ho] at hs
+      | some jn =>
+        obtain ⟨k, n⟩ := jn
+        simp only [ho] at hs
+        split at hs
+        · split at hs <;> (injection hs with hs; subst hs; exact key _ rfl)
+        · cases hs
+    case deref =>
+      cases hr : (c.thr i).ref with
+      | none => simp [hr] at hs
+      | some r => simp only [hr] at hs; injection hs with hs; subst hs; exact key _ rfl
+    all_goals (injection hs with hs; subst hs; exact key _ rfl)
 
 /-- the invariant is preserved by every step of every thread -/
 theorem good_step {c c' : Cfg} {i : Nat} (hg : Good c) (hs : stepFn c i = some c') : Good c' := by
@@ -513,21 +634,24 @@ theorem good_step {c c' : Cfg} {i : Nat} (hg : Good c) (hs : stepFn c i = some c
     | acq l => exact good_acq hg h htodo hs
     | rel l => exact good_rel hg h htodo hs
     | rdV => exact good_rdV hg h htodo hs
+    | rdD => exact good_rdD hg h htodo hs
     | rdC => exact good_rdC hg h htodo hs
     | deref => exact good_deref hg h htodo hs
     | incV =>
       simp only [stepAct] at hs
       injection hs with hs; subst hs
       exact good_write (c.ver + 1) c.dsc c.cur c.next c.heap hg h rfl htodo hg.curLt (Nat.le_refl _) (fun _ _ => rfl)
+        (by omega) (fun _ => ⟨rfl, rfl, rfl⟩) (fun hne => absurd rfl hne)
     | wrD x =>
       simp only [stepAct] at hs
       injection hs with hs; subst hs
       exact good_write c.ver x c.cur c.next c.heap hg h rfl htodo hg.curLt (Nat.le_refl _) (fun _ _ => rfl)
-    | rdD => exact good_rdD hg h htodo hs
+        (Nat.le_refl _) (fun e => by cases e) (fun _ => rfl)
     | wrC x =>
       simp only [stepAct] at hs
       injection hs with hs; subst hs
       refine good_write c.ver c.dsc c.next (c.next + 1) (upd c.heap c.next x) hg h rfl htodo (by omega) (by omega) ?_
+        (Nat.le_refl _) (fun e => by cases e) (fun _ => rfl)
       intro r hr
       exact upd_other _ _ _ _ (by omega)
     | mutate x =>
@@ -544,37 +668,33 @@ theorem stepScan_readOnly {a : Act} {s s' : Scan} (ha : a.isWrite = false) (hss 
     (hph : s.ph ≠ .mixed) : s'.ph ≠ .mixed := by
   cases a with
   | acq l =>
-    simp only [stepScan] at hss
-    split at hss <;> (injection hss with hss; subst hss; exact hph)
+    by_cases hl : l = 0
+    · subst hl; rw [(stepScan_acq0 hss).2.1]; exact hph
+    · rw [stepScan_other hl (Or.inl rfl) hss]; exact hph
   | rel l =>
-    simp only [stepScan] at hss
-    split at hss
-    · split at hss
-      · cases hss
-      · injection hss with hss; subst hss
-        simp only
-        split
-        · simp
-        · exact hph
-    · injection hss with hss; subst hss; exact hph
+    by_cases hl : l = 0
+    · subst hl
+      rw [(stepScan_rel0 hss).2.2.1]
+      split
+      · simp
+      · exact hph
+    · rw [stepScan_other hl (Or.inr rfl) hss]; exact hph
   | rdV =>
-    obtain ⟨_, _, h3⟩ := stepScan_read (Or.inl rfl) hss
+    obtain ⟨_, _, _, _, _, h3⟩ := stepScan_read (Or.inl rfl) hss
     rcases h3 with ⟨_, hn⟩ | ⟨hb, _⟩
     · simp [hn]
     · exact absurd hb hph
   | rdC =>
-    obtain ⟨_, _, h3⟩ := stepScan_read (Or.inr (Or.inl rfl)) hss
+    obtain ⟨_, _, _, _, _, h3⟩ := stepScan_read (Or.inr (Or.inl rfl)) hss
     rcases h3 with ⟨_, hn⟩ | ⟨hb, _⟩
     · simp [hn]
     · exact absurd hb hph
   | rdD =>
-    obtain ⟨_, _, h3⟩ := stepScan_read (Or.inr (Or.inr rfl)) hss
+    obtain ⟨_, _, _, _, _, h3⟩ := stepScan_read (Or.inr (Or.inr rfl)) hss
     rcases h3 with ⟨_, hn⟩ | ⟨hb, _⟩
     · simp [hn]
     · exact absurd hb hph
-  | deref =>
-    simp only [stepScan] at hss
-    injection hss with hss; subst hss; exact hph
+  | deref => rw [stepScan_deref hss]; exact hph
   | incV => simp [Act.isWrite] at ha
   | wrD x => simp [Act.isWrite] at ha
   | wrC x => simp [Act.isWrite] at ha
@@ -589,7 +709,7 @@ theorem scan_readOnly {p : List Act} {s fin : Scan} (hro : ReadOnly p) (hsc : sc
     exact ih (fun b hb => hro b (List.mem_cons_of_mem _ hb)) hrest
       (stepScan_readOnly (hro a List.mem_cons_self) hss hph)
 
-/-- C07 core: a completed read-only thread holds observations of ONE published (version, content) pair -/
+/-- C07 core: a completed read-only thread holds observations of ONE published (version, description, states) triple -/
 theorem snapshot_of_good {c : Cfg} (hg : Good c) (i : Nat) (hro : ReadOnly (c.thr i).prog)
     (hd : (c.thr i).todo = []) : ∃ p ∈ c.hist, Consistent (c.thr i) p := by
   obtain ⟨s, fin, h⟩ := hg.thr i
@@ -615,5 +735,148 @@ theorem snapshot_of_good {c : Cfg} (hg : Good c) (i : Nat) (hro : ReadOnly (c.th
     obtain ⟨p, hpm, h1, _, h3, h4⟩ := hp
     exact ⟨p, hpm, h1, h4, h3⟩
   | mixed => exact absurd hph hnm
+
+/-! ## the history is functional: one content per MdibVersion (for `Committing` programs) -/
+
+/-- every version was published with one content only -/
+def Func (c : Cfg) : Prop := ∀ p ∈ c.hist, ∀ q ∈ c.hist, p.1 = q.1 → p = q
+
+/-- the flag `ok` only ever goes from true to false -/
+theorem stepScan_ok {s s' : Scan} {a : Act} (h : stepScan s a = some s') (hok : s'.ok = true) : s.ok = true := by
+  cases a with
+  | acq l =>
+    by_cases hl : l = 0
+    · subst hl; rw [← (stepScan_acq0 h).2.2.1]; exact hok
+    · rw [← stepScan_other hl (Or.inl rfl) h]; exact hok
+  | rel l =>
+    by_cases hl : l = 0
+    · subst hl
+      have := (stepScan_rel0 h).2.2.2.2.2
+      rw [this] at hok
+      split at hok
+      · simp only [Bool.and_eq_true] at hok; exact hok.1
+      · exact hok
+    · rw [← stepScan_other hl (Or.inr rfl) h]; exact hok
+  | rdV => rw [← (stepScan_read (Or.inl rfl) h).2.2.2.2.1]; exact hok
+  | rdC => rw [← (stepScan_read (Or.inr (Or.inl rfl)) h).2.2.2.2.1]; exact hok
+  | rdD => rw [← (stepScan_read (Or.inr (Or.inr rfl)) h).2.2.2.2.1]; exact hok
+  | deref => rw [← stepScan_deref h]; exact hok
+  | incV => rw [← (stepScan_write rfl h).2.2.2.1]; exact hok
+  | wrD x => rw [← (stepScan_write rfl h).2.2.2.1]; exact hok
+  | wrC x => rw [← (stepScan_write rfl h).2.2.2.1]; exact hok
+  | mutate x => rw [← (stepScan_write rfl h).2.2.2.1]; exact hok
+
+theorem scan_ok {p : List Act} {s fin : Scan} (hsc : scan s p = some fin) (hok : fin.ok = true) : s.ok = true := by
+  induction p generalizing s with
+  | nil => simp only [scan] at hsc; injection hsc with hsc; subst hsc; exact hok
+  | cons a p ih =>
+    obtain ⟨s', hss, hrest⟩ := scan_cons hsc
+    exact stepScan_ok hss (ih hrest)
+
+/-- the history only changes at an outermost release of `mdib_lock` -/
+theorem hist_step {c c' : Cfg} {i : Nat} (hs : stepFn c i = some c') :
+    c'.hist = c.hist ∨
+    (c'.hist = c.hist ++ [(c.ver, c.dsc, c.heap c.cur)] ∧ ∃ rest n, (c.thr i).todo = .rel 0 :: rest ∧
+      c.owner 0 = some (i, n) ∧ n ≤ 1) := by
+  unfold stepFn at hs
+  cases htodo : (c.thr i).todo with
+  | nil => simp [htodo] at hs
+  | cons a rest =>
+    simp only [htodo] at hs
+    cases a <;> simp only [stepAct] at hs
+    case acq l =>
+      cases ho : c.owner l with
+      | none => simp only [ho] at hs; injection hs with hs; subst hs; exact Or.inl rfl
+      | some jn =>
+        obtain ⟨k, n⟩ := jn
+        simp only [ho] at hs
+        split at hs
+        · injection hs with hs; subst hs; exact Or.inl rfl
+        · cases hs
+    case rel l =>
+      cases ho : c.owner l with
+      | none => simp [ho] at hs
+      | some jn =>
+        obtain ⟨k, n⟩ := jn
+        simp only [ho] at hs
+        by_cases hk : k = i
+        · subst hk
+          simp only [if_true] at hs
+          by_cases hn : n ≤ 1
+          · simp only [hn, if_true] at hs
+            injection hs with hs; subst hs
+            by_cases hl : l = 0
+            · subst hl
+              exact Or.inr ⟨by simp, rest, n, rfl, ho, hn⟩
+            · exact Or.inl (by simp [hl])
+          · simp only [hn, if_false] at hs
+            injection hs with hs; subst hs; exact Or.inl rfl
+        · simp [hk] at hs
+    case deref =>
+      cases hr : (c.thr i).ref with
+      | none => simp [hr] at hs
+      | some r => simp only [hr] at hs; injection hs with hs; subst hs; exact Or.inl rfl
+    all_goals (injection hs with hs; subst hs; exact Or.inl rfl)
+
+theorem func_step {c c' : Cfg} {i : Nat} (hg : Good c) (hf : Func c) (hcm : Committing (c.thr i).prog)
+    (hs : stepFn c i = some c') : Func c' := by
+  rcases hist_step hs with he | ⟨he, rest, n, htodo, ho, hn⟩
+  · unfold Func; rw [he]; exact hf
+  · obtain ⟨s, fin, h⟩ := hg.thr i
+    have hsc := h.scanTodo
+    rw [htodo] at hsc
+    obtain ⟨s', hss, hrest⟩ := scan_cons hsc
+    obtain ⟨hpos, _, _, _, _, hok'⟩ := stepScan_rel0 hss
+    have hd1 : s.d = 1 := by
+      have := h.held hpos; rw [ho] at this
+      injection this with this; injection this with _ hnd
+      omega
+    -- the whole program is Committing, so the flag is still set after this release
+    have hfin : fin.ok = true := by
+      unfold Committing at hcm
+      rw [h.scanProg] at hcm
+      exact hcm
+    have hs'ok : s'.ok = true := scan_ok hrest hfin
+    rw [hok'] at hs'ok
+    simp only [hd1, if_true, Bool.and_eq_true, Bool.or_eq_true, Bool.not_eq_true'] at hs'ok
+    obtain ⟨l, hl, hle, hb0, hb1, hdd⟩ := h.sect hpos
+    have hlm : l ∈ c.hist := List.mem_of_getLast? hl
+    have hmax := hg.lastMax l hl
+    unfold Func
+    rw [he]
+    intro p hp q hq hpq
+    simp only [List.mem_append, List.mem_singleton] at hp hq
+    rcases hs'ok.2 with hdirty | hbumped
+    · -- nothing was written: the triple published now is the one published last
+      have hb : s.bumped = false ∨ s.bumped = true := by cases s.bumped <;> simp
+      rcases hb with hb | hb
+      · have hnew : (c.ver, c.dsc, c.heap c.cur) = l := by
+          obtain ⟨e1, e2⟩ := hdd hdirty
+          rw [hb0 hb, e1, e2]
+        rcases hp with hp | rfl <;> rcases hq with hq | rfl
+        · exact hf p hp q hq hpq
+        · rw [hnew] at hpq ⊢; exact hf p hp l hlm hpq
+        · rw [hnew] at hpq ⊢; exact hf l hlm q hq hpq
+        · rfl
+      · have hlt := hb1 hb
+        rcases hp with hp | rfl <;> rcases hq with hq | rfl
+        · exact hf p hp q hq hpq
+        · have := hmax p hp; simp only at hpq; omega
+        · have := hmax q hq; simp only at hpq; omega
+        · rfl
+    · have hlt := hb1 hbumped
+      rcases hp with hp | rfl <;> rcases hq with hq | rfl
+      · exact hf p hp q hq hpq
+      · have := hmax p hp; simp only at hpq; omega
+      · have := hmax q hq; simp only at hpq; omega
+      · rfl
+
+theorem func_reach {c0 c : Cfg} (hg : Good c0) (hf : Func c0) (hcm : ∀ j, Committing (c0.thr j).prog)
+    (hr : Reach c0 c) : Func c ∧ ∀ j, (c.thr j).prog = (c0.thr j).prog := by
+  induction hr with
+  | refl => exact ⟨hf, fun _ => rfl⟩
+  | step hr' hs ih =>
+    refine ⟨func_step (good_reach hg hr') ih.1 (by rw [ih.2]; exact hcm _) hs, fun j => ?_⟩
+    rw [stepFn_prog hs j]; exact ih.2 j
 
 end Sdc.LockLts
